@@ -597,7 +597,7 @@ def key_to_ascending_key(key: GetItemKeyType, size: int) -> GetItemKeyType:
         if key.dtype == DTYPE_BOOL:
             return key # a Boolean selection is positional; sorting it would move the selection
         if key.dtype.kind == 'i' and (key < 0).any():
-            key = np.where(key < 0, key + size, key) # negative positions count from the end
+            key = np.where((key < 0) & (key >= -size), key + size, key) # negative positions count from the end
         return np.sort(key, kind=DEFAULT_SORT_KIND)
 
     if not len(key): #type: ignore
@@ -606,7 +606,7 @@ def key_to_ascending_key(key: GetItemKeyType, size: int) -> GetItemKeyType:
     if isinstance(key, list):
         if any(isinstance(k, INT_TYPES) and k < 0 for k in key):
             # negative positions count from the end: normalize so that sorting ascends by position
-            key = [k + size if isinstance(k, INT_TYPES) and k < 0 else k for k in key]
+            key = [k + size if isinstance(k, INT_TYPES) and -size <= k < 0 else k for k in key]
         return sorted(key)
 
     if isinstance(key, Series):
